@@ -273,8 +273,16 @@ func sanitize(s string) string {
 	return sb.String()
 }
 
+var workersOverride int
+
+// SetWorkers overrides the number of goroutine workers (0 = default); returns the previous override.
+func SetWorkers(n int) int { old := workersOverride; workersOverride = n; return old }
+
 // Workers returns the number of parallel workers to use.
 func Workers() int {
+	if workersOverride > 0 {
+		return workersOverride
+	}
 	if s := os.Getenv("VERIF_WORKERS"); s != "" {
 		if n, err := strconv.Atoi(s); err == nil && n > 0 {
 			return n
